@@ -86,7 +86,7 @@ def run_tlc(
     depth: int | None = None,
     seed: int | None = None,
     env: dict | None = None,
-    timeout: float | None = None,
+    timeout: float | None = 3600,
     coverage: bool = True,
     deadlock: bool = False,
     heap: str = "8g",
